@@ -178,6 +178,14 @@ func TestC01(t *testing.T) {
 		need = int64(rep.Pick(1500, 10000))
 	}
 	run.Require("matched", need)
+	for i, eng := range engines {
+		failoverPhase(run, eng, seed+int64(i)*104729)
+	}
+	fneed := int64(rep.Pick(60, 600))
+	if rep.Mode() == "race" {
+		fneed = int64(rep.Pick(25, 120))
+	}
+	run.Require("failover_replayed", fneed)
 	run.Require("cells", int64(rep.Pick(120, 300)))
 	run.Require("max_in_flight", 8)
 	run.Finish(t)
@@ -479,4 +487,135 @@ func doRequest(hc *http.Client, base string, s *sent, rng *rand.Rand) {
 
 func init() {
 	// keep full bodies only for translated requests (they are small); see runWorld
+}
+
+
+// failoverPhase: the preferred endpoint A breaks the connection (before answering, or in
+// the middle of the upload); the request must then reach B exactly as the client sent it.
+func failoverPhase(run *rep.Run, eng string, seed int64) {
+	rng := rand.New(rand.NewSource(seed))
+	bA := backend.NewStd("fa-a", []string{"mall"}, proxyHandler)
+	bB := backend.NewStd("fa-b", []string{"mall"}, proxyHandler)
+	defer bA.Close()
+	defer bB.Close()
+	bA.PreBody = func(r *backend.Record) (int, bool) {
+		for _, p := range strings.Split(r.RawQuery, "&") {
+			if strings.HasPrefix(p, "fa=") {
+				var k int
+				fmt.Sscanf(p[3:], "%d", &k)
+				if k >= 0 {
+					return k, true
+				}
+			}
+		}
+		return 0, false
+	}
+	bA.SetProxy(func(r *backend.Record) *backend.Resp {
+		if strings.Contains(r.RawQuery, "fa=-1") {
+			return &backend.Resp{Fault: "reset_before_headers"}
+		}
+		return proxyHandler(r)
+	})
+	w, err := world.Start(world.Spec{Engine: eng, Balancer: "priority", Endpoints: []world.Endpoint{
+		{Name: "fa-a", URL: bA.URL(), Type: "ollama", Priority: 100},
+		{Name: "fa-b", URL: bB.URL(), Type: "ollama", Priority: 50},
+	}})
+	if err != nil {
+		run.Inconclusive("world failed to start: " + err.Error())
+		return
+	}
+	defer w.Stop()
+	hc := world.NewClient(false, 60*time.Second)
+	n := rep.Pick(45, 400)
+	if rep.Mode() == "race" {
+		n = rep.Pick(20, 100)
+	}
+	sizes := []int{0, 40, 1500, 65000, 1<<20 - 10, 1<<20 + 10, 3 << 20}
+	for i := 0; i < n; i++ {
+		s := &sent{Nonce: fmt.Sprintf("fo%s%d", eng[:1], i), Family: "failover", Method: []string{"POST", "PUT"}[rng.Intn(2)], JSON: rng.Intn(3) > 0}
+		s.Len = sizes[rng.Intn(len(sizes))]
+		if s.Len > 0 {
+			s.Len += rng.Intn(50)
+		}
+		s.Size = fmt.Sprintf("~%d", s.Len/1000*1000)
+		s.Enc = []string{"cl", "chunked"}[rng.Intn(2)]
+		if s.Len == 0 {
+			s.Enc = "none"
+		}
+		cut := []int{-1, 0, 1, s.Len / 2, s.Len / 3 * 2}[rng.Intn(5)]
+		if cut > 0 && s.Len == 0 {
+			cut = 0
+		}
+		s.Model = "mall"
+		if !s.JSON {
+			s.Model = ""
+		}
+		s.Path, s.Expect = "/olla/proxy/v1/chat/completions", "/v1/chat/completions"
+		s.Query = fmt.Sprintf("nonce=%s&fa=%d&z=%%2F", s.Nonce, cut)
+		doRequest(hc, w.Base, s, rng)
+		cell := fmt.Sprintf("failover/%s/%s/%s/cut=%s", eng, s.Enc, s.Size, cutClass(cut, s.Len))
+		run.Eval(cell)
+		run.SetAdd("failover_cells", cell)
+		var aRec, bRec []*backend.Record
+		for _, r := range bA.ProxyRecords() {
+			if nonceOf(r.RawQuery) == s.Nonce {
+				aRec = append(aRec, r)
+			}
+		}
+		for _, r := range bB.ProxyRecords() {
+			if nonceOf(r.RawQuery) == s.Nonce {
+				bRec = append(bRec, r)
+			}
+		}
+		wit := map[string]any{"sent": s, "engine": eng, "cut": cut, "a_records": aRec, "b_records": bRec}
+		switch {
+		case len(aRec) == 0:
+			run.Inconclusive("failover: preferred endpoint was not tried first")
+		case len(bRec) == 0:
+			// not re-dispatched: whether it should have been is C04's question
+			run.Count("failover_not_redispatched", 1)
+			run.SetAdd("failover_not_redispatched_cells", fmt.Sprintf("%s/cut=%s/status=%d", eng, cutClass(cut, s.Len), s.Status))
+		default:
+			run.Count("failover_replayed", 1)
+			r := bRec[0]
+			if r.Method != s.Method || r.Path != s.Expect || r.RawQuery != s.Query {
+				run.Violation("C01/failover/request-line-differs", "the replayed request's method/path/query differ from the client's", wit)
+			}
+			if r.BodyLen != s.Len || r.BodySHA != s.SHA {
+				kind := "altered"
+				if r.BodyLen < s.Len {
+					kind = "truncated"
+				} else if r.BodyLen > s.Len {
+					kind = "extended"
+				}
+				run.Violation("C01/failover/body-"+kind, fmt.Sprintf("after a failed attempt on A, B received %d body bytes, the client sent %d", r.BodyLen, s.Len), wit)
+			}
+		}
+		if i < 2 {
+			run.Sample(map[string]any{"kind": "failover", "sent": s, "cut": cut, "a_records": len(aRec), "b_records": len(bRec)})
+		}
+		// re-admit A for the next case, and let one clean request through it so that the olla
+		// engine's own breaker (5 consecutive failures) never opens during this phase
+		if err := w.ForceHealth(); err != nil {
+			run.Inconclusive("forced health round failed")
+		}
+		clean := &sent{Nonce: s.Nonce + "ok", Family: "proxy", Method: "POST", JSON: true, Model: "mall", Len: 64, Enc: "cl",
+			Path: "/olla/proxy/v1/chat/completions", Expect: "/v1/chat/completions"}
+		clean.Query = "nonce=" + clean.Nonce
+		doRequest(hc, w.Base, clean, rng)
+	}
+}
+
+func cutClass(cut, n int) string {
+	switch {
+	case cut < 0:
+		return "after-upload"
+	case cut == 0:
+		return "at-0"
+	case cut == 1:
+		return "at-1"
+	case cut <= n/2:
+		return "mid"
+	}
+	return "late"
 }
